@@ -669,6 +669,8 @@ def handle_clear(program, rep):
 
 
 def run(program, rep, tier):
+    from rules import c14
+    c14.check_default_binding(program, rep, 'C13.order', ('switch',))
     handle_clear(program, rep)
     f, spaths, bad = analyse_switch_fn(program, rep)
     if 'order' in bad:
